@@ -369,8 +369,11 @@ def provenance_rule(repo: Repo, rep: Report, rid: str) -> None:
     # _make_packed_type: size = struct.calcsize(packchar)
     fi = repo.func("cstruct.py", "cstruct._make_packed_type")
     mk = [c for c in walk_body(fi.node.body) if isinstance(c, ast.Call) and call_name(c) == "_make_type"]
-    ob(bool(mk) and len(mk[0].args) >= 3 and isinstance(mk[0].args[2], ast.Call) and call_name(mk[0].args[2]) == "calcsize"
-       and norm(mk[0].args[2].args[0]) == "packchar", f"{fi.key}:size", "size = struct.calcsize(packchar)",
+    from ..util import resolve_local as _rl4
+
+    szarg = _rl4(fi.node, mk[0].args[2]) if mk and len(mk[0].args) >= 3 else None
+    ob(isinstance(szarg, ast.Call) and call_name(szarg) == "calcsize" and bool(szarg.args)
+       and norm(_rl4(fi.node, szarg.args[0])) == "packchar", f"{fi.key}:size", "size = struct.calcsize(packchar)",
        "packed type size is not struct.calcsize(packchar)", fi.loc())
     attrs = kwargs_of(mk[0]).get("attrs") if mk else None
     ob(attrs is not None and _dict_value(attrs, "packchar") is not None and norm(_dict_value(attrs, "packchar")) == "packchar",
